@@ -1,5 +1,5 @@
 SPECIFICATION MCSpec
 CONSTANTS MaxFaults = 2 MaxSigs = 1 Sigs = {"PIPE"} AllFlagCombos = FALSE MaxFiles = 1
 INVARIANTS TypeOK DataSafe FailureKeepsSource FailureCleansUp NoJunkLeft ExitZeroMeansDone FailureIsReported
-           KeepNeverRemoves NoForeignLost NoOverwrite CleanBetweenFiles AbortDiesBySignal
+           KeepNeverRemoves NoForeignLost NoOverwrite CleanBetweenFiles AbortDiesBySignal PendingHoleFresh
 CHECK_DEADLOCK FALSE
